@@ -178,16 +178,17 @@ def divideValue : Tree → Except Err (Option (Val × Val))
       match a.divider with
       | .str "_default" => if a.topology.truthy then .str "null" else .str "set"
       | d => d
-    match divider with
-    | .str name =>
-      if name ≠ "" then applyDivider name (getValue (.node a inner))
-      else divideBranch inner
-    | _ => divideBranch inner
-def divideBranch : List (String × Tree) → Except Err (Option (Val × Val))
-  | [] => .ok none
-  | kc :: rest => do
-    let (d1, d2) ← divideKids (kc :: rest)
-    pure (some (.dict d1, .dict d2))
+    let viaDivider : Option String :=
+      match divider with
+      | .str name => if name ≠ "" then some name else none
+      | _ => none
+    match viaDivider with
+    | some name => applyDivider name (getValue (.node a inner))
+    | none =>
+      if inner.isEmpty then .ok none
+      else do
+        let (d1, d2) ← divideKids inner
+        pure (some (.dict d1, .dict d2))
 def divideKids : List (String × Tree) → Except Err (KVs × KVs)
   | [] => .ok ([], [])
   | (k, c) :: rest => do
@@ -638,6 +639,19 @@ def foldFM {β σ} (f : σ → β → FM σ) : σ → List β → FM σ
     let s' ← f s x
     foldFM f s' xs
 
+/-- `Store.divide` after its arguments are read: mother key `mk`, daughters `ds` -/
+def storeDivideCore (fuel : Nat) (here : Path) (mk : String) (ds : List Val) : FM Report := do
+  let n ← node here
+  let m ← liftOpt .keyError (AL.lookup mk n.inner)
+  let states ← lift (divideValue m)
+  let pair ← liftOpt .typeError states
+  let acc ← foldFM (divideDaughter fuel here mk) {} (ds.zip [pair.1, pair.2])
+  eraseAt (here ++ [mk])
+  pure { topology := acc.topology,
+         processes := acc.pas.filter (fun pp => !pp.2.procIsStep),
+         steps := acc.pas.filter (fun pp => pp.2.procIsStep),
+         flow := acc.flow, deletions := [pathVal (here ++ [mk])], viewExpire := true }
+
 /-- `Store.divide(divide)` at `here` -/
 def storeDivide (fuel : Nat) (here : Path) (dv : Val) : FM Report := do
   let kvs ← match dv with
@@ -651,16 +665,7 @@ def storeDivide (fuel : Nat) (here : Path) (dv : Val) : FM Report := do
   let ds ← match daughters with
     | .list ds => pure ds
     | _ => throw .typeError
-  let n ← node here
-  let m ← liftOpt .keyError (AL.lookup mk n.inner)
-  let states ← lift (divideValue m)
-  let pair ← liftOpt .typeError states
-  let acc ← foldFM (divideDaughter fuel here mk) {} (ds.zip [pair.1, pair.2])
-  eraseAt (here ++ [mk])
-  pure { topology := acc.topology,
-         processes := acc.pas.filter (fun pp => !pp.2.procIsStep),
-         steps := acc.pas.filter (fun pp => pp.2.procIsStep),
-         flow := acc.flow, deletions := [pathVal (here ++ [mk])], viewExpire := true }
+  storeDivideCore fuel here mk ds
 
 /-- the structural keys `apply_update` pops from a branch update -/
 def structuralKeys : List String := ["_add", "_move", "_generate", "_divide", "_delete"]
